@@ -270,6 +270,61 @@ def r01f(ctx, rep, cr):
     rep.floor('R01f', 'log-shortening sites reachable from handle_append_entries', n, 1)
 
 
+def r01g(ctx, rep, cr):
+    rep.rule('R01g', 'a leadership starts knowing nothing about its followers: every path through RaftNode::become_leader to a return '
+                     'assigns LeadershipState.leader_volatile as a whole, with a value that does not derive from the previous '
+                     'leader_volatile (fresh next_index / match_index) — or else every function that leaves the Leader role clears '
+                     'leader_volatile. Acknowledgements (match_index) from an earlier term must not count towards a quorum in a later one: '
+                     'the entries they acknowledged may have been overwritten since')
+    LV = 'tensor_chain::raft::LeadershipState.leader_volatile'
+    f = rep.require_fn('R01g', cr, 'tensor_chain::raft::RaftNode::become_leader')
+    if f is None:
+        return
+    defs = A.Defs(f)
+    ws = [w for w in A.field_writes(f) if w[2] == LV and w[3][1][-1] == LV]
+    fresh = []
+    for w in ws:
+        rv = w[4]
+        sl = A.backward_slice(f, A.rvalue_operands(rv), defs) if rv else None
+        if sl is not None and LV not in sl.fields:
+            fresh.append(w)
+    blocks = {w[0] for w in fresh}
+    R = A.reachable(f, [0], cut_blocks=blocks)
+    rets = [r for r in A.return_blocks(f) if r in R]
+    if fresh and not rets:
+        rep.holds('R01g', f, 'fresh leader state', 'leader_volatile assigned anew on every path')
+        return
+    # alternative discipline: every step-down clears it
+    ROLE = 'tensor_chain::raft::LeadershipState.role'
+    leaky = []
+    for name, g in sorted(cr.fns.items()):
+        gw = list(A.field_writes(g))
+        down = [w for w in gw if w[2] == ROLE and w[3][1][-1] == ROLE and not _is_leader_value(g, w)]
+        if down and not any(w[2] == LV and w[3][1][-1] == LV for w in gw):
+            leaky.append(lib.short(name))
+    if not leaky:
+        rep.holds('R01g', f, 'fresh leader state', 'every step-down clears leader_volatile')
+    else:
+        rep.violation('R01g', f, 'stale-leader-state', f.loc(),
+                      'become_leader can return without replacing leader_volatile (it keeps what an earlier leadership left behind), and '
+                      '%s leave the Leader role without clearing it: a re-elected node counts match_index values acknowledged in its old '
+                      'term towards the quorum and commits an entry that only a minority holds' % ', '.join(leaky[:4]))
+
+
+def _is_leader_value(g, w):
+    rv = w[4]
+    if not rv:
+        return False
+    if rv[0] == 'agg':
+        return rv[1].endswith('RaftState::Leader')
+    if rv[0] == 'use' and rv[1][0] != 'k':
+        d = A.single_def(A.Defs(g), rv[1][1][0])
+        return bool(d and d[2] == 'st' and d[3][1][0] == 'agg' and d[3][1][1].endswith('RaftState::Leader'))
+    if rv[0] == 'use' and rv[1][0] == 'k':
+        return 'Leader' in rv[1][1]
+    return False
+
+
 def run(ctx, rep):
     cr = ctx.crate('tensor_chain')
     raft_rules.r01a(ctx, rep)
@@ -278,5 +333,6 @@ def run(ctx, rep):
     r01d(ctx, rep, cr)
     r01e(ctx, rep, cr)
     r01f(ctx, rep, cr)
+    r01g(ctx, rep, cr)
     if ctx.tier == 'thorough':
         witness.run(rep, 'R01a', ['RaftPersistentStateIsPrivate'])
